@@ -135,6 +135,14 @@ def regenerate_guards(pid):
         hold = ht.read_text() if ht.exists() else ""
         if htext != hold: ht.write_text(htext)
         info["holdouts"] = {"module": "LK.Gen.HoldoutC05", "obligations": "LK/Proofs/HoldoutC05.lean", "function": "splitting/holdout.py: SampleN, SampleFrac, LastN, LastFrac", "changed_since_last_run": htext != hold}
+        # …and the record splitters' bookkeeping (translate/py2lean_split.py)
+        import py2lean_split
+        st_ = LEAN_DIR / "LK" / "Generated" / "SplitC05.lean"
+        try: stext = py2lean_split.translate(os.path.dirname(lenskit.__file__))
+        except py2lean_split.Unsupported as e: return "untranslatable", f"record splitters: {e}", info
+        sold = st_.read_text() if st_.exists() else ""
+        if stext != sold: st_.write_text(stext)
+        info["record_splitters"] = {"module": "LK.Gen.SplitC05", "obligations": "LK/Proofs/SplitC05.lean", "function": "splitting/records.py: _make_pair, crossfold_records, _disjoint_samples", "changed_since_last_run": stext != sold}
     if pid == "C09":
         # the similarity row of the item-item model (translate/py2lean_sim.py)
         import py2lean_sim
@@ -276,7 +284,7 @@ def main():
         if status in ("untranslatable", "obligation-broken"):
             sys.exit(search_chunking(a.pid, f"{status}: {msg}"))
         if status == "build-error":
-            if ginfo is not None and any(f"{k}{a.pid}" in msg for k in ("Guards", "Wiring", "Scatter", "Np", "Imp", "Holdout", "Arrow", "Cand", "SaveTrace", "BatchTrace", "Neg", "Als", "Agg", "Rank", "RowPtrs", "Sim")):
+            if ginfo is not None and any(f"{k}{a.pid}" in msg for k in ("Guards", "Wiring", "Scatter", "Np", "Imp", "Holdout", "Arrow", "Cand", "SaveTrace", "BatchTrace", "Neg", "Als", "Agg", "Rank", "RowPtrs", "Sim", "Split")):
                 sys.exit(obligation_broken(a.pid, "obligation-broken: " + msg.replace("\n", " | ")[:900], mod, a.tier, seed, a.replay, ginfo))
             print(f"machinery error: lake build failed\n{msg}", file=sys.stderr); sys.exit(2)
     else:
@@ -284,7 +292,7 @@ def main():
         r = subprocess.run(["lake", "build", f"LK.Props.{a.pid}", "lkdriver"], cwd=LEAN_DIR, capture_output=True, text=True, timeout=1800)
         if r.returncode != 0:
             bad = [l for l in (r.stdout + r.stderr).splitlines() if "error" in l][:8]
-            if ginfo is not None and any(any(f"{k}{a.pid}" in l for k in ("Guards", "Wiring", "Scatter", "Np", "Imp", "Holdout", "Arrow", "Cand", "SaveTrace", "BatchTrace", "Neg", "Als", "Agg", "Rank", "RowPtrs", "Sim")) for l in bad):
+            if ginfo is not None and any(any(f"{k}{a.pid}" in l for k in ("Guards", "Wiring", "Scatter", "Np", "Imp", "Holdout", "Arrow", "Cand", "SaveTrace", "BatchTrace", "Neg", "Als", "Agg", "Rank", "RowPtrs", "Sim", "Split")) for l in bad):
                 sys.exit(obligation_broken(a.pid, "obligation-broken: " + " | ".join(bad)[:900], mod, a.tier, seed, a.replay, ginfo))
             print("machinery error: lake build failed\n" + "\n".join(bad[:6]), file=sys.stderr); sys.exit(2)
     try:
